@@ -82,10 +82,10 @@ Section Connects.
   Arguments has_sch : simpl never.
   Arguments booted : simpl never.
 
-  Definition e_attach (e : eng) : eng := {| dbs := dbs e ++ [(d, false)]; schs := schs e ++ [[d; s_main]]; tbls := tbls e; cmts := cmts e |}.
+  Definition e_attach (e : eng) : eng := {| dbs := dbs e ++ [(d, false)]; schs := schs e ++ [[d; s_main]]; tbls := tbls e; cmts := cmts e; temps := temps e |}.
   Definition e_boot (e : eng) : eng :=
-    {| dbs := map (fun p => if str_eqb (fst p) d then (fst p, true) else p) (dbs e); schs := schs e; tbls := tbls e; cmts := cmts e |}.
-  Definition e_mksch (e : eng) : eng := {| dbs := dbs e; schs := schs e ++ [[d; s]]; tbls := tbls e; cmts := cmts e |}.
+    {| dbs := map (fun p => if str_eqb (fst p) d then (fst p, true) else p) (dbs e); schs := schs e; tbls := tbls e; cmts := cmts e; temps := temps e |}.
+  Definition e_mksch (e : eng) : eng := {| dbs := dbs e; schs := schs e ++ [[d; s]]; tbls := tbls e; cmts := cmts e; temps := temps e |}.
 
   Lemma attach_db e : has_db (e_attach e) d = true.
   Proof. unfold has_db, e_attach. cbn [dbs]. rewrite existsb_app. cbn. rewrite str_eqb_refl. apply orb_true_r. Qed.
@@ -538,7 +538,7 @@ Arguments booted : simpl never.
 (* no engine call of the model removes or rewrites anything durable *)
 Lemma exec_mono e c : eng_le e (fst (exec e c)).
 Proof.
-  destruct c as [d|d s|d|d|d s|d s|k|k c|k v|k|k| |k v|k vs| ]; cbn; try apply eng_le_refl.
+  destruct c as [d|d s|d|d|d s|d s|k|k c|k v|k|k| |k v|k vs| |sid k src|sid k|sid]; cbn; try apply eng_le_refl.
   - (* Attach *) destruct (has_db e d) eqn:H; [apply eng_le_refl|]. cbn. repeat split; cbn; auto; intros.
     + unfold has_db in *. cbn [dbs]. rewrite existsb_app, H0. reflexivity.
     + unfold booted in *. cbn [dbs]. rewrite existsb_app, H0. reflexivity.
@@ -574,6 +574,13 @@ Proof.
     rewrite klook_kput. destruct (key_eqb k k0) eqn:E.
     + apply gkey_eqb_eq in E. subst k0. rewrite H in H0. injection H0 as <-. exists (rows ++ vs). split; [reflexivity|]. exists vs. reflexivity.
     + eauto using prefix_refl.
+  - (* MkCands: only the session's temporary table *) destruct (klook (tbls e) k); [|apply eng_le_refl]. destruct (klook (tbls e) src); apply eng_le_refl || (cbn; repeat split; cbn; auto; intros; eauto using prefix_refl).
+  - (* ApplyCands *) destruct (klook (tbls e) k) as [rows|] eqn:H; [|apply eng_le_refl]. destruct (tlook (temps e) sid) as [cs|]; [|apply eng_le_refl].
+    cbn. repeat split; cbn; auto; intros; eauto.
+    rewrite klook_kput. destruct (key_eqb k k0) eqn:E.
+    + apply gkey_eqb_eq in E. subst k0. rewrite H in H0. injection H0 as <-. exists (rows ++ cs). split; [reflexivity|]. exists cs. reflexivity.
+    + eauto using prefix_refl.
+  - (* CountCands *) destruct (tlook (temps e) sid); apply eng_le_refl.
 Qed.
 
 Lemma turn_mono e x : eng_le e (fst (fst (turn e x))).
@@ -648,3 +655,170 @@ Lemma crash_nonvacuous_l :
   klook (tbls (crash false (repeat 0%nat 40) 15 h)) TK = Some [1; 2; 3] /\  (* after its COMMIT *)
   klook (tbls (crash false (repeat 0%nat 40) 40 h)) TK = Some [1; 2; 3; 6]. (* the rolled-back rows never appear *)
 Proof. vm_compute. repeat split. Qed.
+
+(* ------------------------------------------------------------------ MERGE: the staging table is private to its session *)
+Definition op_sid_ok (j : nat) (o : op) : bool := match o with Merge sid _ _ => Nat.eqb sid j | _ => true end.
+Definition script_ok (j : nat) (ops : list op) : Prop := Forall (fun o => op_sid_ok j o = true) ops.
+Definition all_ok (ss : list sess) : Prop := forall j s, nth_error ss j = Some s -> script_ok j (todo s).
+
+(* between its first and its last engine call, a MERGE of session i finds in ITS temporary table exactly the candidates
+   its own first call computed (and its second call applied) *)
+Definition priv (e : eng) (i : nat) (s : sess) : Prop :=
+  match todo s with
+  | Merge _ _ _ :: _ => (pc s = 1 \/ pc s = 2)%nat -> exists cs, last s = ARows cs /\ tlook (temps e) i = Some cs
+  | _ => True
+  end.
+Definition MInv (st : eng * list sess) : Prop :=
+  all_ok (snd st) /\ forall i s, nth_error (snd st) i = Some s -> priv (fst st) i s.
+
+Lemma tlook_tput l : forall i j v, tlook (tput l i v) j = if Nat.eqb i j then Some v else tlook l j.
+Proof.
+  induction l as [|[a w] l IH]; intros i j v; cbn.
+  - destruct (Nat.eqb i j); reflexivity.
+  - destruct (Nat.eqb a i) eqn:E; cbn.
+    + apply Nat.eqb_eq in E. subst a. destruct (Nat.eqb i j); reflexivity.
+    + rewrite IH. destruct (Nat.eqb i j) eqn:E2; [|reflexivity].
+      apply Nat.eqb_eq in E2. subst j. rewrite E. reflexivity.
+Qed.
+
+Lemma exec_temps_other e c i : (forall sid k src, c = MkCands sid k src -> sid <> i) -> tlook (temps (fst (exec e c))) i = tlook (temps e) i.
+Proof.
+  intros H. destruct c as [d|d s|d|d|d s|d s|k|k c|k v|k|k| |k v|k vs| |sid k src|sid k|sid]; cbn;
+    repeat match goal with |- context [match ?x with _ => _ end] => destruct x; cbn end; try reflexivity.
+  rewrite tlook_tput. destruct (Nat.eqb sid i) eqn:E; [|reflexivity]. apply Nat.eqb_eq in E. exfalso. exact (H sid k src eq_refl E).
+Qed.
+
+Lemma fetch_mkcands o p sid k src : fetch o p = Some (MkCands sid k src) -> o = Merge sid k src /\ p = 0%nat.
+Proof.
+  destruct o as [d s|d|k0 c|k0 v|k0|k0|k0 vs b|sid0 k0 src0]; cbn.
+  - do 10 (destruct p as [|p]; try discriminate).
+  - do 2 (destruct p as [|p]; try discriminate).
+  - destruct p as [|[|p]]; try discriminate; destruct c; discriminate.
+  - destruct p; discriminate.
+  - destruct p; discriminate.
+  - destruct p; discriminate.
+  - destruct p as [|p]; [discriminate|]. destruct (nth_error vs p); [discriminate|]. destruct (Nat.eqb p (length vs)); [|discriminate]. destruct b; discriminate.
+  - destruct p as [|[|[|p]]]; try discriminate. intros H. injection H as -> -> ->. auto.
+Qed.
+
+Lemma settle_todo s : todo (settle s) = todo s \/ exists o, todo s = o :: todo (settle s).
+Proof.
+  unfold settle. destruct (todo s) as [|o rest] eqn:T; [left; exact T|].
+  destruct (fetch o (pc s)); [left; exact T|]. right. exists o. reflexivity.
+Qed.
+
+Lemma script_ok_tail j o r : script_ok j (o :: r) -> script_ok j r.
+Proof. intros H. inversion H. assumption. Qed.
+
+Lemma priv_settle_popped e i s : (match todo s with o :: _ => fetch o (pc s) = None | [] => True end) -> priv e i (settle s).
+Proof.
+  unfold settle. destruct (todo s) as [|o rest] eqn:T.
+  - intros _. unfold priv. rewrite T. exact I.
+  - intros H. rewrite H. unfold priv. cbn. destruct rest as [|[] ?]; try exact I. intros [F|F]; discriminate.
+Qed.
+
+Lemma turn_minv e ss j sj : MInv (e, ss) -> nth_error ss j = Some sj ->
+  MInv (fst (fst (turn e sj)), upd ss j (snd (fst (turn e sj)))).
+Proof.
+  intros [Ok Pr] Hj. cbn [fst snd] in *. pose proof (nth_error_lt _ _ _ Hj) as Lt.
+  pose proof (Ok j sj Hj) as Okj. pose proof (Pr j sj Hj) as Prj.
+  unfold turn. destruct (todo sj) as [|o rest] eqn:T.
+  - (* nothing to do *) unfold MInv. cbn [fst snd]. split.
+    + intros i s H. destruct (Nat.eq_dec j i) as [<-|N]; [rewrite nth_error_upd_same in H by exact Lt; injection H as <-; exact (Ok j sj Hj)|].
+      rewrite nth_error_upd_other in H by exact N. exact (Ok i s H).
+    + intros i s H. destruct (Nat.eq_dec j i) as [<-|N]; [rewrite nth_error_upd_same in H by exact Lt; injection H as <-; exact (Pr j sj Hj)|].
+      rewrite nth_error_upd_other in H by exact N. exact (Pr i s H).
+  - destruct (fetch o (pc sj)) as [c|] eqn:F.
+    + (* one engine call *)
+      destruct (exec e c) as [e' a] eqn:X. cbn [fst snd].
+      set (s1 := {| todo := o :: rest; pc := advance o (pc sj) a; last := a; done := done sj |}).
+      assert (Ts1 : todo s1 = o :: rest) by reflexivity.
+      assert (Tmp : forall i, i <> j -> tlook (temps e') i = tlook (temps e) i).
+      { intros i N. replace e' with (fst (exec e c)) by (rewrite X; reflexivity). apply exec_temps_other.
+        intros sid k src ->. apply fetch_mkcands in F. destruct F as [-> _]. inversion Okj as [|? ? Hs _]. cbn in Hs.
+        apply Nat.eqb_eq in Hs. congruence. }
+      unfold MInv. cbn [fst snd]. split.
+      * intros i s H. destruct (Nat.eq_dec j i) as [<-|N].
+        -- rewrite nth_error_upd_same in H by exact Lt. injection H as <-.
+           destruct (settle_todo s1) as [E|[o' E]]; rewrite Ts1 in E.
+           ++ rewrite E. exact Okj.
+           ++ injection E as _ E. rewrite <- E. exact (script_ok_tail _ _ _ Okj).
+        -- rewrite nth_error_upd_other in H by exact N. exact (Ok i s H).
+      * intros i s H. destruct (Nat.eq_dec j i) as [<-|N].
+        -- rewrite nth_error_upd_same in H by exact Lt. injection H as <-.
+           (* the acting session *)
+           destruct (fetch o (advance o (pc sj) a)) eqn:F2.
+           ++ (* stays inside the operation *)
+              assert (S1 : settle s1 = s1). { unfold settle, s1. cbn [todo pc]. rewrite F2. reflexivity. }
+              rewrite S1. unfold priv, s1. cbn [todo pc last].
+              destruct o as [d s|d|k0 cm0|k0 v|k0|k0|k0 vs b|sid k0 src0]; try exact I.
+              inversion Okj as [|? ? Hs _]. cbn in Hs. apply Nat.eqb_eq in Hs. subst sid.
+              unfold priv in Prj. rewrite T in Prj.
+              destruct (pc sj) as [|[|[|p]]] eqn:P; cbn in F; try discriminate; injection F as <-.
+              ** (* MkCands *) cbn in X. destruct (klook (tbls e) k0) as [tr|]; [destruct (klook (tbls e) src0) as [sr|]|];
+                   injection X as <- <-; cbn in F2; try discriminate.
+                 intros _. eexists. split; [reflexivity|]. cbn. rewrite tlook_tput, Nat.eqb_refl. reflexivity.
+              ** (* ApplyCands *) destruct (Prj (or_introl eq_refl)) as (cs & L & Tl).
+                 cbn in X. rewrite Tl in X. destruct (klook (tbls e) k0) as [rows|]; injection X as <- <-; cbn in F2; try discriminate.
+                 intros _. exists cs. split; [reflexivity|exact Tl].
+              ** (* CountCands is the last call *) cbn in X. destruct (tlook (temps e) j); injection X as <- <-; cbn in F2; discriminate.
+           ++ (* the operation ends: the next one starts at pc 0 *)
+              apply priv_settle_popped. unfold s1. cbn [todo pc]. exact F2.
+        -- rewrite nth_error_upd_other in H by exact N. pose proof (Pr i s H) as Q. unfold priv in *.
+           destruct (todo s) as [|[] ?]; try exact I. intros Hp. destruct (Q Hp) as (cs & L & Tl). exists cs. split; [exact L|].
+           rewrite Tmp by congruence. exact Tl.
+    + (* fetch = None: settle only *)
+      unfold MInv. cbn [fst snd]. split.
+      * intros i s H. destruct (Nat.eq_dec j i) as [<-|N].
+        -- rewrite nth_error_upd_same in H by exact Lt. injection H as <-.
+           destruct (settle_todo sj) as [E|[o' E]].
+           ++ rewrite E, T. exact Okj.
+           ++ rewrite T in E. injection E as _ E. rewrite <- E. exact (script_ok_tail _ _ _ Okj).
+        -- rewrite nth_error_upd_other in H by exact N. exact (Ok i s H).
+      * intros i s H. destruct (Nat.eq_dec j i) as [<-|N].
+        -- rewrite nth_error_upd_same in H by exact Lt. injection H as <-. apply priv_settle_popped. rewrite T. exact F.
+        -- rewrite nth_error_upd_other in H by exact N. exact (Pr i s H).
+Qed.
+
+Lemma sched_step_minv lk st j : MInv st -> MInv (sched_step lk st j).
+Proof.
+  destruct st as [e ss]. intros M. unfold sched_step. destruct (nth_error ss j) as [sj|] eqn:Hj; [|exact M].
+  destruct (lk && wants_lock sj && negb (lock_free_for ss j)); [exact M|].
+  pose proof (turn_minv e ss j sj M Hj) as Q. destruct (turn e sj) as [[e' s'] c]. exact Q.
+Qed.
+
+Lemma run_sched_minv lk sch : forall st, MInv st -> MInv (run_sched lk sch st).
+Proof. unfold run_sched. induction sch as [|j sch IH]; intros st M; [exact M|]. cbn [fold_left]. apply IH. apply sched_step_minv. exact M. Qed.
+
+Lemma minv_init scripts : (forall j ops, nth_error scripts j = Some ops -> script_ok j ops) -> MInv (e0, map mk_sess scripts).
+Proof.
+  intros W. split; cbn [fst snd].
+  - intros j s H. rewrite nth_error_map in H. destruct (nth_error scripts j) as [ops|] eqn:E; [|discriminate]. injection H as <-. exact (W j ops E).
+  - intros i s H. rewrite nth_error_map in H. destruct (nth_error scripts i) as [ops|]; [|discriminate]. injection H as <-.
+    unfold priv. cbn. destruct ops as [|[] ?]; try exact I. intros [F|F]; discriminate.
+Qed.
+
+(* for EVERY number of sessions, scripts (every MERGE tagged with its own session) and schedule: whenever a session is
+   between the engine calls of a MERGE, its staging table holds its own candidates - no interleaving can make it apply or
+   count another session's rows *)
+Theorem merge_staging_private_l : forall lk sch scripts, (forall j ops, nth_error scripts j = Some ops -> script_ok j ops) ->
+  forall i s, nth_error (snd (run_sched lk sch (e0, map mk_sess scripts))) i = Some s ->
+  forall sid k src rest, todo s = Merge sid k src :: rest -> (pc s = 1 \/ pc s = 2)%nat ->
+  exists cs, last s = ARows cs /\ tlook (temps (fst (run_sched lk sch (e0, map mk_sess scripts)))) i = Some cs.
+Proof.
+  intros lk sch scripts W i s H sid k src rest T P.
+  destruct (run_sched_minv lk sch _ (minv_init scripts W)) as [_ Pr]. specialize (Pr i s H). unfold priv in Pr. rewrite T in Pr. exact (Pr P).
+Qed.
+
+(* with ONE staging table shared by the sessions (both MERGEs tagged 1) an interleaving makes session 1 apply session 2's candidates *)
+Definition MT1 : key := [DB; SC; lit "T1"].
+Definition MS1 : key := [DB; SC; lit "S1"].
+Definition MT2 : key := [DB; SC; lit "T2"].
+Definition MS2 : key := [DB; SC; lit "S2"].
+Definition merge_setup : list op :=
+  [Connect DB SC; CreateTable MT1 None; CreateTable MS1 None; CreateTable MT2 None; CreateTable MS2 None; Insert MS1 1; Insert MS2 2].
+Definition merge_sched : list nat := repeat 0%nat 40 ++ repeat 1%nat 5 ++ repeat 2%nat 5 ++ [1; 1; 2; 2]%nat.
+Lemma merge_shared_refuted_l :
+  klook (tbls (fst (run_all true merge_sched [merge_setup; [Connect DB SC; Merge 1 MT1 MS1]; [Connect DB SC; Merge 1 MT2 MS2]]))) MT1 = Some [2] /\
+  klook (tbls (fst (run_all true merge_sched [merge_setup; [Connect DB SC; Merge 1 MT1 MS1]; [Connect DB SC; Merge 2 MT2 MS2]]))) MT1 = Some [1].
+Proof. vm_compute. split; reflexivity. Qed.
